@@ -791,7 +791,10 @@ def returns_unsupplied_default(mod):
     return False
 
 
-def prog_signature(kind, mod, real):
+def prog_signature(kind, mod, real, flagsafe=None, mirrored=None):
+    """Signature of a counterexample.  `flagsafe`: the Lean driver's verdict VM.flagSafeB on the module (inside the
+    hypothesis of C20_nested_inlining_flags_partial: no known finding lives there); `mirrored`: the model's
+    tracer+denotation gives the same outcome as the real code (a known finding is a *modelled* departure)."""
     f = prog_features(mod)
     sig = kind
     if kind == "build-error":
@@ -803,6 +806,10 @@ def prog_signature(kind, mod, real):
         sig += "/flag-on-nested-dag"
         if kind == "wrong-value" and returns_unsupplied_default(mod):
             sig += "/returns-unsupplied-default"
+        if flagsafe:
+            sig += "/inside-FlagSafe"
+        elif mirrored is False:
+            sig += "/not-mirrored-by-model"
     elif f["nested"]:
         sig += "/nested"
     elif f["flagged"]:
@@ -819,6 +826,9 @@ def module_stream(seed, count, pid):
             if pid == "C20" and len(mod["defs"]) == 1:
                 continue
             yield "p%d" % j, mod, random.Random("pass/%d/%d" % (seed, j))
+    if pid in ("C01", "C10"):
+        for j, mod in enumerate(V.directed_shared_flag_modules()):
+            yield "f%d" % j, mod, random.Random("shflag/%d/%d" % (seed, j))
     if pid in ("C10", "C20"):
         directed = list(V.directed_modules())
         pick = directed if count > 2000 else random.Random("dir/%d" % seed).sample(directed, 150)
@@ -846,7 +856,7 @@ def module_stream(seed, count, pid):
 def fix_json_module(mod):
     """JSON turns tuples into lists: restore tuple constants/defaults where the generator only emits tuples."""
     def fix(v):
-        if isinstance(v, list) and v in ([1, 2], [5, 6]):
+        if isinstance(v, list) and v in ([1, 2], [5, 6], [0, 5], [5, 0]):
             return tuple(v)
         return v
 
@@ -913,7 +923,7 @@ def run_V(pid, tier, seed):
     lean_tab = {}
     for l in out:
         w = l.split(" ", 2)
-        if len(w) >= 3 and w[1] in ("plain", "model"):
+        if len(w) >= 3 and w[1] in ("plain", "model", "flagsafe"):
             lean.setdefault(w[0], {})[w[1]] = w[2]
         elif len(w) >= 2 and w[1] in ("node", "ret"):
             lean_tab.setdefault(w[0], []).append(l)
@@ -965,8 +975,15 @@ def run_V(pid, tier, seed):
         if lp != want:
             failures.append(Failure("correspondence", "V-lean-plain-vs-cpython", mod, dict(lean=lp, cpython=want, source=src), slice_="V"))
             continue
+        flagsafe = lean.get(mid, {}).get("flagsafe") == "T"
+        if prog_features(mod)["dagflag"]:
+            stats["dagflag_flagsafe"] = stats.get("dagflag_flagsafe", 0) + int(flagsafe)
         if lm != want:
             stats["model_vs_plain_diff"] += 1
+            if flagsafe:
+                # inside the hypothesis of C20_nested_inlining_flags_partial the two Lean evaluations cannot differ
+                failures.append(Failure("correspondence", "V-model-vs-plain-inside-FlagSafe", mod,
+                                        dict(model=lm, plain=lp, source=src), slice_="V"))
         ok_all = True
         rendered = []
         for (r, info) in reals:
@@ -984,7 +1001,8 @@ def run_V(pid, tier, seed):
                 kind = "call-raised:" + r[1]
             else:
                 kind = "wrong-value"
-            sig = prog_signature(kind, mod, r)
+            mirrored = (lm == got) if r[0] == "OK" else (lm == "ERR" if r[0] == "ERR" else None)
+            sig = prog_signature(kind, mod, r, flagsafe=flagsafe, mirrored=mirrored)
             failures.append(Failure("counterexample", sig, mod,
                                     dict(source=src, args=mod["args"], got=got if r[0] == "OK" else list(r), want=want,
                                          configuration=dict(info, config=info.get("config")), lean_plain=lp, lean_model=lm),
@@ -1018,9 +1036,11 @@ ASSUME_V = [
     "fragment: a container of results is not a result (depth-1 return shapes, components passed on individually)",
 ]
 
-reg("C01", ["Props.C01_core", "Props.C01_flat_partial", "Props.C20_nested_inlining_partial", "VM.traceStmts_good", "Props.C09_bound"], run_V, ASSUME_V)
-reg("C20", ["Props.C20_nested_inlining_partial", "VM.traceStmts_good", "VM.bindParamRefs_good", "Props.C01_core"], run_V, ASSUME_V)
-reg("C10", ["Props.C10_flag_reads_full_reference", "Props.C10_execution_inactive_none", "Props.C10_active_runs", "Props.C03_exactly_once_at_done", "Props.C01_core", "Props.C01_flat_partial", "Props.C20_nested_inlining_partial"], run_V, ASSUME_V)
+FLAG_THMS = ["Props.C20_nested_inlining_flags_partial", "Props.C20_flagSafe_decidable", "Props.C20_no_flags_is_flagSafe",
+             "Props.C20_flag_witness_default", "Props.C20_flag_witness_indexed", "VM.traceStmts_goodF", "VM.traceStmts_dead"]
+reg("C01", ["Props.C01_core", "Props.C01_flat_partial", "Props.C20_nested_inlining_partial", "VM.traceStmts_good", "Props.C09_bound"] + FLAG_THMS, run_V, ASSUME_V)
+reg("C20", ["Props.C20_nested_inlining_partial", "VM.traceStmts_good", "VM.bindParamRefs_good", "Props.C01_core"] + FLAG_THMS, run_V, ASSUME_V)
+reg("C10", ["Props.C10_flag_reads_full_reference", "Props.C10_execution_inactive_none", "Props.C10_active_runs", "Props.C03_exactly_once_at_done", "Props.C01_core", "Props.C01_flat_partial", "Props.C20_nested_inlining_partial"] + FLAG_THMS, run_V, ASSUME_V)
 
 
 # ---------------------------------------------------------------------------------------------
@@ -1068,6 +1088,9 @@ def run_H(pid, tier, seed):
         distinct.add(json.dumps([sc, ops], sort_keys=True))
         if len(samples) < 2:
             samples.append(dict(scenario=sc, operations=ops, protocol=blocks[-1].splitlines()))
+    H.cleanup_cache_slots()
+    stats["cache_pairs_on_a_shared_overwritten_path"] = sum(
+        1 for (_sc, ops_, _r) in kept.values() for o in ops_ if o["op"] == "cache" and o.get("slot") is not None)
     out = common.run_driver("Hist", "".join(blocks))
     ans = {}
     for l in out:
